@@ -389,6 +389,24 @@ def typeOfMembers (ms : List (String × Json)) : String :=
   | some (.str t) => t
   | _ => ""
 
+/-- is the member `(k, v)` acceptable in an object-form schema of type `t`? (`isDoc` / `isFields`:
+"`v` is a schema document" / "`v` is a fields array", passed unevaluated by the recursive caller) -/
+def attrFit (t k : String) (v : Json) (isDoc isFields : Unit → Bool) : Bool :=
+  if k = "type" then (match v with | .str s => s == t | _ => false)
+  else if k = "logicalType" then v.isStr
+  else if k = "name" then v.isStr
+  else if k = "namespace" then v.isStr
+  else if k = "fields" then t == "record" && isFields ()
+  else if k = "items" then t == "array" && isDoc ()
+  else if k = "values" then t == "map" && isDoc ()
+  else if k = "size" then t == "fixed" && (match v with | .num _ => true | _ => false)
+  else if k = "symbols" then t == "enum" && (match v with | .arr ys => Json.isStrs ys | _ => false)
+  else true
+
+/-- the same for a member of a record-field object -/
+def fieldAttrFit (k : String) (v : Json) (isDoc : Unit → Bool) : Bool :=
+  if k = "name" then v.isStr else if k = "type" then isDoc () else true
+
 mutual
 def Json.isSchemaDoc : Json → Bool
   | .str t => t != "union"
@@ -402,16 +420,7 @@ def Json.isSchemaDocs : List Json → Bool
 def Json.membersFit (t : String) : List (String × Json) → Bool
   | [] => true
   | (k, v) :: ms =>
-    (if k = "type" then (match v with | .str s => s == t | _ => false)
-     else if k = "logicalType" then v.isStr
-     else if k = "name" then v.isStr
-     else if k = "namespace" then v.isStr
-     else if k = "fields" then t == "record" && Json.isFieldsDoc v
-     else if k = "items" then t == "array" && Json.isSchemaDoc v
-     else if k = "values" then t == "map" && Json.isSchemaDoc v
-     else if k = "size" then t == "fixed" && (match v with | .num _ => true | _ => false)
-     else if k = "symbols" then t == "enum" && (match v with | .arr ys => Json.isStrs ys | _ => false)
-     else true) && Json.membersFit t ms
+    attrFit t k v (fun _ => Json.isSchemaDoc v) (fun _ => Json.isFieldsDoc v) && Json.membersFit t ms
 def Json.isFieldsDoc : Json → Bool
   | .arr xs => Json.isFieldDocs xs
   | _ => false
@@ -423,9 +432,7 @@ def Json.isFieldDoc : Json → Bool
   | _ => false
 def Json.fieldMembersFit : List (String × Json) → Bool
   | [] => true
-  | (k, v) :: ms =>
-    (if k = "name" then v.isStr else if k = "type" then Json.isSchemaDoc v else true)
-      && Json.fieldMembersFit ms
+  | (k, v) :: ms => fieldAttrFit k v (fun _ => Json.isSchemaDoc v) && Json.fieldMembersFit ms
 end
 
 end Avro
